@@ -16,7 +16,6 @@ from __future__ import annotations
 
 import io
 import itertools
-import json
 import logging
 import re
 import struct
@@ -61,32 +60,30 @@ TRUSTED = [
     "modelled, not verified: str.lower/replace/partition/join, slicing, f-strings of ints, defaultdict insertion order, Python truthiness",
 ]
 ASSUMPTIONS = [
-    "pretty values have the shapes beacon.py produces for the canonical TLV types; text is latin-1; execute strings are latin-1",
+    "pretty values have the shapes beacon.py produces for the canonical TLV types; text is latin-1; execute items are written on the line as the UTF-8 "
+    "bytes of the pretty `str` (= the configuration bytes: parse_execute_list decodes UTF-8, the generator encodes UTF-8 again); only valid "
+    "UTF-8 names are generated (invalid ones make parse_execute_list raise UnicodeDecodeError: C03's subject)",
     "BeaconGate API names reach the generator in set-iteration order: both sides compare the block with its non-group tail sorted "
     "(the harness checks that the tree lists them in the order of the pretty value)",
     "well-formed = ANY latin-1 text in text settings (backslashes, quotes, control and non-ASCII characters; NUL cannot be stored in a "
     "configuration string), any SETTING_DOMAINS value (odd field counts / empty URIs included: missing URIs are skipped, no `uri` option "
-    "when nothing is left), known execute items (`CreateThread \"mod!fn+0x..\"` without a backslash in the quoted part: candidate finding "
-    "C13-execute-special-backslash), programs with every BUILD group terminated once and last, exactly one `print` in the recover "
-    "program, defined enum values",
+    "when nothing is left), execute items as parse_execute_list writes them (a known name or `CreateThread \"<any text>\"` / "
+    "`CreateRemoteThread \"<any text>\"`: backslashes, quotes, control and non-ASCII characters in module / function names included), "
+    "programs with every BUILD group terminated once and last, exactly one `print` in the recover program, defined enum values: "
+    "no character restriction anywhere",
     "the http-get server output is promised in *recover* order (the configuration only stores the recover program and lengths; "
     "arguments are `X`*n placeholders): the generated block lists the steps in the order the client undoes them",
 ]
 RULE = ("single-setting / all-present / random subset-and-order configurations over typed value generators (zero and non-zero guards, every "
         "transform/recover opcode with nasty byte arguments, every execute name, all single-flag gate vectors and group complements, "
-        "text with backslashes / quotes / control bytes / non-ASCII latin-1, None / empty URIs and odd SETTING_DOMAINS field counts), "
+        "text with backslashes / quotes / control bytes / non-ASCII latin-1, None / empty URIs and odd SETTING_DOMAINS field counts, "
+        "execute module / function names with backslashes, quotes, control characters and multi-byte UTF-8), "
         "malformed programs, duplicates, sample beacons; distinct = hash of (stream, line); non-trivial = a "
         "non-empty tree (gen), printable text with a non-empty dictionary (rt), a well-formed configuration (chk)")
 
 VERIF = Path(__file__).resolve().parent.parent.parent
-try:
-    _KNOWN_IDS = {k["id"] for k in json.loads((VERIF / "known_findings.json").read_text()).get("findings", [])
-                  if k.get("property") == "C13" and k.get("status") == "known"}
-except Exception:  # noqa: BLE001
-    _KNOWN_IDS = set()
-# text options with backslashes (fix 1fcf339) and odd / empty SETTING_DOMAINS (fix 8acec71) are repaired in /repo: they are ordinary
-# property-relevant cases now.  Still open: the quoted part of an execute item is handed to value_to_string as `str`.
-KF_EXEC = "C13-execute-special-backslash"
+# Repaired in /repo, hence ordinary property-relevant (`chk`) cases now: text options with backslashes (fix 1fcf339), odd / empty
+# SETTING_DOMAINS (fix 8acec71), backslashes in the quoted part of execute items (fix 9ae0a64).  No known finding is matched here.
 
 # ----------------------------------------------------------------------------------------------------------------
 # Cobalt Strike's numbering, written by hand (independent of the library's enums)
@@ -263,6 +260,9 @@ def enc_exec(items):
             raise ValueError(f"execute item {it!r} cannot be produced by parse_execute_list")
         off = int(m.group(4), 16) if m.group(4) else 0
         mod, fn = m.group(2), m.group(3)
+        again = m.group(1) + b' "' + mod + b"!" + fn + ((b"+0x%x" % off) if off else b"") + b'"'
+        if again != it or off > 0xFFFF or mod.endswith(b"\0") or fn.endswith(b"\0"):
+            raise ValueError(f"execute item {it!r} is not a text parse_execute_list can produce (`+0x0`, leading zeros, …)")
         out += bytes([EXEC_SPECIAL[m.group(1).decode()]]) + be16(off) + be32(len(mod) + 1) + mod + b"\0" + be32(len(fn)) + fn
     return out
 
@@ -388,7 +388,7 @@ def pretty_of(idx, kind, val):
     if kind == "R":
         return [({"a": "append", "p": "prepend"}[st[0]], st[1]) if st[0] in "ap" else (RFLAG[st[1]], True) for st in val]
     if kind == "X":
-        return [None if it is None else it.decode("latin-1") for it in val]
+        return [None if it is None else it.decode("utf-8") for it in val]       # items are the UTF-8 bytes of the text
     if kind == "J":
         return [({"A": "append", "P": "prepend"}[n], v) for n, v in val]
     if kind == "G":
@@ -651,13 +651,15 @@ def exec_special(it) -> bool:
     if it is None:
         return False
     name, sp, rest = it.partition(b" ")
-    return bool(sp) and name in (b"CreateThread", b"CreateRemoteThread") and len(rest) >= 2
+    return (bool(sp) and name in (b"CreateThread", b"CreateRemoteThread") and len(rest) >= 2
+            and rest[:1] == b'"' and rest[-1:] == b'"')
 
 
 def wf_exec_item(it):
-    if it is None or b"\\" in it:
+    """a known name, or `CreateThread "<any text>"` / `CreateRemoteThread "<any text>"`"""
+    if it is None:
         return False
-    if it.decode("latin-1") in list(EXEC_OP) + ["NtQueueApcThread-s"]:
+    if it in [n.encode() for n in EXEC_OP] + [b"NtQueueApcThread-s"]:
         return True
     return exec_special(it)
 
@@ -774,35 +776,6 @@ def py_expected(entries, uris) -> dict:
     return d
 
 
-def _strip_exec_backslashes(entries):
-    out = []
-    for idx, kind, val in entries:
-        if idx == 51 and kind == "X":
-            val = [it.replace(b"\\", b"") if (exec_special(it) and b"\\" in it) else it for it in val]
-        out.append((idx, kind, val))
-    return out
-
-
-def kf_class(entries, uris):
-    """input class of the recorded finding (on the settings after dict semantics): the configuration is well-formed except that the
-    quoted part of one or more `CreateThread "…"` / `CreateRemoteThread "…"` execute items contains a backslash"""
-    if py_wf(entries, uris):
-        return None
-    if any(idx == 51 and kind == "X" and any(exec_special(it) and b"\\" in it for it in val) for idx, kind, val in entries) \
-            and py_wf(_strip_exec_backslashes(entries), uris):
-        return KF_EXEC
-    return None
-
-
-def kf_violated(line, kf, entries, uris) -> bool:
-    """does the implementation really break the property on this input of the recorded class?  (no exception, valid text that parses
-    back to the same tree, dictionary == the expected dictionary, which promises the quoted part byte for byte)"""
-    r = run_pipeline(line.partition(" ")[2], True)
-    if "exc" in r or "text" not in r or not r.get("reparse"):
-        return True
-    return r["dict"] != py_expected(entries, uris)
-
-
 def _parsed(line):
     uris, entries = dec_payload(line.split(" ")[1:])
     return uris, dict_semantics(entries)
@@ -816,22 +789,8 @@ def oracle(stream, line, out):
     if stream == "rt":
         return out.startswith("ok text=T reparse=T") if wf else None
     if stream == "chk":
-        if wf:
-            return out == "wf=T total=T valid=T faithful=T noempty=T"
-        kf = kf_class(ded, uris)
-        if kf is not None and kf in _KNOWN_IDS:
-            return not kf_violated(line, kf, ded, uris)
-        return None
+        return (out == "wf=T total=T valid=T faithful=T noempty=T") if wf else None
     return None
-
-
-def known(stream, line, known_list):
-    if stream != "chk":
-        return None
-    ids = {k["id"] for k in known_list}
-    uris, ded = _parsed(line)
-    kf = kf_class(ded, uris)            # None for well-formed configurations
-    return kf if (kf in ids and kf_violated(line, kf, ded, uris)) else None
 
 
 def nontrivial(stream, line, out):
@@ -1004,21 +963,42 @@ def gen_recover(rng, wf=True):
     return steps
 
 
-def gen_exec_item(rng, bad=False):
+NASTY_NAME = [b"\\", b"\\\\", b"\\\"", b"\\'", b"\\n", b"\\x41", b"\\u0041", b"C:\\w\\", b'"', b"'", b"\n", b"\r", b"\t", b"\x01", b"\x7f", b"#", b";", b"{}",
+              "\u00e9".encode(), "\u00ff".encode(), "\u0100".encode(), "\u20ac".encode(), "\U0001f600".encode(), "\u0080".encode()]
+
+
+def gen_exec_item(rng, nasty=None):
+    while True:
+        it = _gen_exec_item(rng, nasty)
+        try:
+            enc_exec([it])
+            return it
+        except ValueError:                                # e.g. a function name ending in `+0x0`: not a producible text
+            continue
+
+
+def _gen_exec_item(rng, nasty=None):
+    """an execute item as the UTF-8 bytes of the text parse_execute_list produces; module / function names: any valid UTF-8 text
+    without NUL (parse_execute_list strips trailing NULs), the module without `!`"""
     r = rng.random()
-    if r < 0.65 and not bad:
+    if r < 0.6 and not nasty:
         return rng.choice(list(EXEC_OP)).encode()
     name = rng.choice(["CreateThread", "CreateRemoteThread"])
     mod = bytes(rng.choice(b"abcdll.32_\"' #;") for _ in range(rng.choice([0, 1, 5, 9])))
     fn = bytes(rng.choice(b"ABCfoo!+09x\"';") for _ in range(rng.choice([0, 1, 4, 12])))
-    if bad:                                              # a backslash in the quoted part (C13-execute-special-backslash)
-        esc = rng.choice([b"\\", b"\\\\", b"\\\"", b"\\'", b"\\n", b"\\x41", b"C:\\w\\"])
-        if rng.random() < 0.5:
-            pos = rng.randrange(len(mod) + 1)
-            mod = mod[:pos] + esc + mod[pos:]
-        else:
-            pos = rng.randrange(len(fn) + 1)
-            fn = fn[:pos] + esc + fn[pos:]
+    if nasty or (nasty is None and rng.random() < 0.5):   # backslashes, quotes, control characters, multi-byte UTF-8
+        for _ in range(rng.choice([1, 1, 2, 3])):
+            esc = rng.choice(NASTY_NAME)
+            if rng.random() < 0.5:
+                pos = rng.randrange(len(mod) + 1)
+                while pos < len(mod) and (mod[pos] & 0xC0) == 0x80:      # keep multi-byte characters whole
+                    pos += 1
+                mod = mod[:pos] + esc + mod[pos:]
+            else:
+                pos = rng.randrange(len(fn) + 1)
+                while pos < len(fn) and (fn[pos] & 0xC0) == 0x80:
+                    pos += 1
+                fn = fn[:pos] + esc + fn[pos:]
     off = rng.choice([0, 0, 1, 0x10, 0x2285, 0xFFFF])
     return name.encode() + b' "' + mod + b"!" + fn + ((b"+0x%x" % off) if off else b"") + b'"'
 
@@ -1082,11 +1062,8 @@ def gen_value(rng, idx, wf=True):
         return "J", []
     if idx == 51:
         items = [gen_exec_item(rng) for _ in range(rng.choice([0, 1, 2, 4, 8]))]
-        if not wf:
-            if items and rng.random() < 0.5:
-                items[rng.randrange(len(items))] = None
-            else:
-                items.insert(rng.randrange(len(items) + 1), gen_exec_item(rng, bad=True))
+        if not wf:                                       # an unknown opcode: the pretty value holds None
+            items.insert(rng.randrange(len(items) + 1), None)
         return "X", items
     if idx == 78:
         return "G", gen_gate_random(rng)
@@ -1139,18 +1116,9 @@ def emit(entries, heavy=True, rt=True):
     payload = enc_payload(uris, entries)
     yield "gen", "gen " + payload
     if heavy:
-        ded = dict_semantics(entries)
-        if rt and not _has_backslash_exec(ded):
+        if rt:
             yield "rt", "rt " + payload
         yield "chk", "chk " + payload
-
-
-def _has_backslash_exec(entries):
-    """the rt stream compares the dictionary of the re-parsed text: not defined when an execute literal is left unescaped"""
-    for idx, kind, val in entries:
-        if kind == "X" and any(it is not None and b"\\" in it for it in val):
-            return True
-    return False
 
 
 def corpus_configs():
@@ -1343,7 +1311,9 @@ def gen(tier, rng, shard, nshards):
             yield from emit([(51, "X", [n])])
     for sp in (b'CreateThread "ntdll!RtlUserThreadStart+0x2285"', b'CreateRemoteThread "kernel32.dll!LoadLibraryA"', b'CreateThread "!"',
                b'CreateRemoteThread "a b!c d+0x1"', b'CreateThread "q\"uote!x"', b'CreateThread "C:\\w\\x.dll!f"', b'CreateThread "a\\"!f"',
-               b'CreateRemoteThread "a!f\\"', b'CreateThread "a\\nb!f+0x10"', b"CreateThread \"a\\'b!f\""):
+               b'CreateRemoteThread "a!f\\"', b'CreateThread "a\\nb!f+0x10"', b"CreateThread \"a\\'b!f\"", b'CreateThread "a\\x.dll!f"',
+               b'CreateThread "\\\\!\\\\+0x1"', b'CreateRemoteThread "a\nb!c\td"', 'CreateThread "caf\u00e9.dll!\u20ac\U0001f600+0xffff"'.encode(),
+               'CreateRemoteThread "\u0100!\u00ff"'.encode(), b'CreateThread "\"!\""', b'CreateThread "a!f+0x"'):
         if mine():
             yield from emit([(51, "X", [sp])])
             yield from emit([(51, "X", names + [sp])])
